@@ -49,3 +49,6 @@ def handle (op : String) (j : Json) : Except String Json := do
   | _ => throw s!"unknown op {op}"
 
 end Capella.Driver.Path
+
+/-- `lake env lean --run Capella/Driver/Path.lean` -/
+def main : IO Unit := Capella.Driver.runLoop Capella.Driver.Path.handle
